@@ -55,7 +55,9 @@ def buffer_writes(facts, b, depth=1):
     (its expressions name the same struct's fields through its own `self`)."""
     dbg = bounds.debug_only_blocks(b)
     out = []
-    for bb, t in sorted(b.calls(), key=lambda x: x[0]):
+    dom = b.dominators()
+    # execution order, not block numbering: along a straight line each block has one more dominator than the one before
+    for bb, t in sorted(b.calls(), key=lambda x: (len(dom.get(x[0], ())), x[0])):
         if bb in dbg:
             continue
         fn = F.callee(t)[0] or ""
